@@ -96,6 +96,17 @@ CHECKS = {
                      "close() is a no-op, signalling/ICE/connection states are closed, every data channel closed, every received track "
                      "ended (its consumer got MediaStreamError), no event fires afterwards, no aiortc task of that node is pending and "
                      "no decoder thread is alive after a 3 s grace period."),
+    "C05": dict(engine="hostile_sim", design="10/C05 + Appendix A", technique="deterministic simulation with an enumerated fault class x protocol state product: a forging actor injects byte-level built datagrams (raw, or authenticated through the peer's real DTLS/SRTP) into a full real receive path at generated points of a session; liveness of the receive loop and tasks, a line-count cost meter, and post-injection round trips are the oracle",
+                text="Fault enumeration: 72 datagram classes (raw bytes of every first-byte range, damaged ciphertext; SCTP packets with "
+                     "correct CRC and verification tag: unknown/truncated chunks, parameter lengths 0/odd/overlong, SACK gap blocks "
+                     "inverted/overlapping/16-bit extremes/hundreds, counts beyond the body, FORWARD-TSN stream lists, RE-CONFIG parameters "
+                     "of every type and truncation, bundled chunks, bundled INIT, DCEP garbage and invalid UTF-8 on unused and live streams, "
+                     "every PPID; RTP/RTCP through SRTP: header-extension forms with wrong lengths, padding/CSRC extremes, short RTX, every "
+                     "RTCP type with count/length mismatches, REMB/NACK extremes, codec payload truncations) are swept against the "
+                     "protocol states a session passes through (DTLS handshake in progress, before SCTP start, COOKIE-WAIT/ECHOED, "
+                     "established idle / with data outstanding, media flowing) and then sampled with seeded field values: the victim's DTLS "
+                     "receive loop and every media task stay alive, handling one forged datagram costs < 1e6 + 2000*len executed lines, "
+                     "and after void datagrams a fresh data-channel round trip and continued frame delivery succeed." ),
 }
 
 NOT_APPLICABLE = [
@@ -107,6 +118,8 @@ NOT_APPLICABLE = [
 LEVELS = {"C05": "fault_enumeration", "C19": "fault_enumeration"}
 
 ENGINES = [
+    {"name": "hostile_sim", "path": "simrtc/engines/hostile_sim.py", "serves_properties": ["C05", "C08"],
+     "kind_free_text": "victim endpoint with the full real receive path (DTLS loop, SCTP + channels, video receiver, sender with feedback) and a peer = real stack + byte-level forging actor, over SimIceConnection/SimNet; virtual time"},
     {"name": "pc_sim", "path": "simrtc/engines/pc_sim.py", "serves_properties": ["C03", "C14", "C19"],
      "kind_free_text": "two real RTCPeerConnections (full stack) over SimIceConnection/SimNet with an in-simulation signalling channel; virtual time, seeded scheduler"},
     {"name": "media_sim", "path": "simrtc/engines/media_sim.py", "serves_properties": ["C11", "C04"],
